@@ -47,7 +47,7 @@ def main(tier, seed):
         for a in atoms:
             noops += [("or", nq, a), ("or", a, nq), ("and", nq, a), ("and", a, nq), ("or", ("and", nq, a), a), ("and", ("or", nq, a), a)]
         noops += [("or", nq, ("noop", "tags")), ("and", nq, ("noop", "fields"))]
-    qs = base + d1 + noops
+    qs = base + d1 + noops + qtie.twin_compounds()
     n_exh = len(qs)
     n_d2 = 150 if tier == "quick" else 700
     for _ in range(n_d2):
@@ -111,6 +111,8 @@ def main(tier, seed):
         comm_checked += 1
         if (not ((a & bq) == (bq & a)) or not ((a | bq) == (bq | a)) or hash(a & bq) != hash(bq & a) or hash(a | bq) != hash(bq | a)) and len(direct_bad) < 5:
             direct_bad.append({"q1": qa, "q2": qb, "why": "a & b != b & a (or |, or their hashes differ) for operands whose keys hash alike"})
+    ebad, edited_checked = qtie.edited_point_check(tf, qs, rqs, univ)
+    direct_bad += [dict(x, q1=x["query"], q2=x["query"]) for x in ebad]
     f = ck.work / "cases_c17.v"
     qtie.emit_eq_cases(f, qs, eq_rows, hashable)
     rc, out = coqc_file(f, timeout=1500)
@@ -136,7 +138,7 @@ def main(tier, seed):
         "trusted_base": TRUSTED_BASE_COMMON + ["hand model Query.v (qhash, hv_eqb, qeq) tied by correspondence", "twin table",
                                                "Print Assumptions: " + json.dumps(b["assumptions"])],
         "theorems": b["theorems"], "forbidden_tokens_found": b["forbidden"],
-        "evaluations": n * n, "expressions": n, "pairs_equal": n_equal, "commutativity_pairs_checked": comm_checked,
+        "evaluations": n * n, "expressions": n, "pairs_equal": n_equal, "commutativity_pairs_checked": comm_checked, "same_object_after_in_place_edit_checked": edited_checked,
         "distinct_nontrivial": sum(1 for i in range(n) for j in eq_rows[i] if i != j),
         "rule": "all ordered pairs over {vocabulary, near-duplicates, depth-1 closure of a core (exhaustive), sampled depth-2 expressions with their mirror images}: "
                 "q1 == q2 and is_hashable compared implementation vs model; for equal pairs, equal behaviour on the whole point universe and equal hash() checked "
